@@ -5,9 +5,9 @@ import concurrent.futures as cf, json, os, re, subprocess, sys
 SRC = sys.argv[1]
 only = set(sys.argv[2:])
 pids = [c["property_id"] for c in json.load(open("/verif/MANIFEST.json"))["checks"]]
-head = subprocess.run(["git", "-C", "/verif", "rev-parse", "--short", "HEAD"], capture_output=True, text=True).stdout.strip()
+head = subprocess.run(["git", "-C", os.environ.get("VERIF_DIR", "/verif"), "rev-parse", "--short", "HEAD"], capture_output=True, text=True).stdout.strip()
 def run_check(pid):
-    r = subprocess.run(["/venv/bin/python", "-m", "pvs", "check", pid, "--no-evidence"], cwd="/verif", capture_output=True, text=True)
+    r = subprocess.run(["/venv/bin/python", "-m", "pvs", "check", pid, "--no-evidence"], cwd=os.environ.get("VERIF_DIR", "/verif"), capture_output=True, text=True)
     return pid, r.returncode, sorted(set(re.findall(r"rule=(\S+)", r.stdout))), [l for l in r.stdout.splitlines() if l.startswith("ANALYSIS-ERROR")]
 def clean():
     return subprocess.run(["git", "-C", "/repo", "status", "--porcelain", "--untracked-files=no"], capture_output=True, text=True).stdout.strip() == ""
